@@ -48,9 +48,12 @@ PROPS = {
     'C08': dict(
         level='proof',
         functions=[SEQ + f for f in ('FCR', 'NCPR', 'Fplus', 'Fminus', 'phasePlotRegion', 'phasePlotAnnotation')] + [SP + 'get_phasePlotRegion'],
-        lemmas=['count_partition', 'npos_nonneg', 'nneg_nonneg', 'nneut_nonneg'],
+        lemmas=['count_partition', 'npos_nonneg', 'nneg_nonneg', 'nneut_nonneg', 'C08_threshold_separation'],
         native='c08',
-        assumptions=['thresholds compared over the reals; the float-vs-threshold boundary agreement (7/20, 1/4) is covered by the exhaustive native enumeration of composition triples, not by proof'],
+        assumptions=['thresholds compared over the reals. Float agreement is ARGUED, not mechanised end to end: a ratio of integers m/N is exactly on a threshold or at least 1/(20N) away from it '
+                     '(theorem C08_threshold_separation, proved), which exceeds the error of one correctly rounded division by many orders of magnitude for any realistic N, 1/4 is a double, and 7/20 computed as '
+                     '7k/20k rounds to the same double as the literal 0.35 (same real, same rounding) - the IEEE-754 facts themselves are assumed; the exhaustive native enumeration of all '
+                     'composition triples (N <= 48 quick, 120 thorough) checks the same agreement on the real floats'],
         design_ref='2 / C08',
     ),
     'C09': dict(
@@ -96,18 +99,17 @@ PROPS = {
     'C14': dict(
         level='other',
         functions=['localcider/backend/seqfileparser.py:SequenceFileParser.' + f for f in ('__validSeq', '__final_validation', 'parseSeqFile')],
-        thorough_functions=['localcider/backend/seqfileparser.py:SequenceFileParser.parseSeqFile#three'],
         lemmas=['n_keep_strict', 'n_keep_nonneg', 'n_keep_nonneg_all', 'n_keep_onto', 'n_star_nonneg', 'n_star_zero', 'nsym_none'],
         native='c14',
         explanation='proved for all lines: __validSeq keeps exactly the residue letters and "*" of a line in order, drops spaces and digits, and raises exactly when another character occurs; '
                     '__final_validation returns the word unchanged without "*", drops a single final "*", raises exactly for a repeated or non-final "*". '
-                    'parseSeqFile is under contract for files of 0, 1 and 2 lines (3 lines in the thorough tier), each line a symbolic string of ANY length and content: lines are stripped '
+                    'parseSeqFile is under contract for files of 0, 1 and 2 lines, each line a symbolic string of ANY length and content: lines are stripped '
                     '(str.strip modelled as the slice between the first and last non-white-space character), blank lines skipped, a first header line skipped, and the result is exactly the '
                     'residue letters of the sequence lines in order (closed-form position of every residue letter: kept characters of earlier lines + kept characters before it; only residue '
                     'letters occur; length = kept characters, less one for a single final "*"); it raises ALWAYS when a second header line or a foreign character in a sequence line occurs, and '
                     'otherwise only if a "*" occurs (exactly when: the contract of __final_validation, applied at its call site). The NUMBER of lines is bounded (this is why the level is not '
                     '"proof"); more lines, real files on disk and the file branch of the constructors are covered by the bounded native check on temporary files',
-        assumptions=['parseSeqFile: number of lines bounded by 2 (quick) / 3 (thorough), line contents unbounded',
+        assumptions=['parseSeqFile: number of lines bounded by 2, line contents unbounded (a three-line variant exists as contract parseSeqFile#three; 223 of its 225 obligations discharge, two time out, so it is not part of any tier)',
                      'open()/readlines(): the lines are ghost content attached to the file name (the file system is not modelled)',
                      'str.strip(): ASCII white space exact, beyond ASCII the trusted classifier chr_isspace'],
         design_ref='2 / C14',
